@@ -246,6 +246,10 @@ type TimingOpts struct {
 	// NoAddrAttribution turns off the per-wavefront attribution of data addresses (one dword per work-item in
 	// every buffer), which only the C14 kernels guarantee; generated programs may use other strides.
 	NoAddrAttribution bool
+	// SlowScalar/SlowVector/SlowInst > 0: that memory takes one request per so many cycles (sustained
+	// back-pressure: the CU's port buffer and the unit's own queues fill). Horizon overrides the cycle horizon.
+	SlowScalar, SlowVector, SlowInst int
+	Horizon                          int
 }
 
 type taskHook struct{ f func(ctx sim.HookCtx) }
@@ -264,7 +268,11 @@ func RunTiming(x *explore.Exec, k *Kernel, g Geometry, o TimingOpts) (res *Resul
 		}
 	}()
 	f2k := map[string][2]int{}
-	w := world.New(x, 6000)
+	hz := 6000
+	if o.Horizon > 0 {
+		hz = o.Horizon
+	}
+	w := world.New(x, hz)
 	w.MaxEvts = 400000
 	memory := InitialMemory(k, g)
 	const ace, imem, smem, vmem = sim.RemotePort("Env.ACE"), sim.RemotePort("Env.IMem"), sim.RemotePort("Env.SMem"), sim.RemotePort("Env.VMem")
@@ -413,6 +421,7 @@ func RunTiming(x *explore.Exec, k *Kernel, g Geometry, o TimingOpts) (res *Resul
 	iF.DelayAlphabet = nil
 	sS, sF := mkMem(toS, "smem", smem, false)
 	vS, vF := mkMem(toV, "vmem", vmem, true)
+	iS.Every, sS.Every, vS.Every = o.SlowInst, o.SlowScalar, o.SlowVector
 
 	// ---- dispatcher
 	aceF := &world.Feeder{W: w, Port: toACE, Tag: "ace"}
